@@ -215,11 +215,13 @@ fn exec_all(w: &mut dyn Write, a: &MultiPolygon<f64>, touch: i64, general: bool,
                         hits.push(if idx.intersects(&fwd(Coord { x: (-1 + step * i) as f64, y: (-1 + step * j) as f64 })) { 1 } else { 0 });
                     }
                 }
-                (pieces, hits)
+                // the accessors of the index hold the very pieces the free function returns
+                let same = *idx.subdivisions() == pieces && idx.clone().into_subdivisions() == pieces;
+                (pieces, hits, same)
             });
             let ev = match r {
-                Ok((pieces, hits)) => {
-                    let mut bad = false;
+                Ok((pieces, hits, same)) => {
+                    let mut bad = !same;
                     let jpieces: Vec<Value> = pieces.iter().map(|m| json!({"top": ring_json(m.top(), &*back, false, &mut bad), "bot": ring_json(m.bot(), &*back, false, &mut bad)})).collect();
                     // x-monotonicity is a statement about the mapped coordinates: logged for the identity map only
                     json!({"ev":"mono","p":jp,"pieces":jpieces,"hits":hits,"step":step,"xmono": mi.is_none(),"st":st(bad),"note":note,"rand":rand})
